@@ -266,7 +266,9 @@ func falsySetRuleSSA(r *Run, rule string) {
 		r.Lost(rule, "SSA form of the truthiness predicate")
 		return
 	}
-	paths, ok := walkPaths(fn, nil, func(caller, callee *ssa.Function) bool { return w.isCompilerMethod(callee) && !w.isNodeEvaluator(callee) })
+	paths, ok := walkPaths(fn, nil, func(caller, callee *ssa.Function) bool {
+		return w.isCompilerMethod(callee) && !w.isNodeEvaluator(callee)
+	})
 	if !ok {
 		r.Lost(rule, "paths of the truthiness predicate")
 		return
